@@ -1757,7 +1757,10 @@ fn eval_for_in(
 
     let Value_::List { items, .. } = iteree_value.as_ref() else {
         return Err((
-            RestoreValues(vec![iteree_value.clone()]),
+            RestoreValues(vec![
+                Value::new(Value_::Int(iteree_idx)),
+                iteree_value.clone(),
+            ]),
             EvalError::Exception(ExceptionInfo {
                 position: iteree_pos.clone(),
                 message: format_type_error(
@@ -1789,18 +1792,12 @@ fn eval_for_in(
         return Ok(());
     }
 
-    // After this iteration's body, a DoneRunBlock step (see the
-    // `ForIn` dispatch) pops the bindings block that `eval_block`
-    // pushes, before the next iteration runs.
-    env.push_expr_to_eval(
-        ExpressionState::PartiallyEvaluated(BlockState::DoneRunBlock),
-        Rc::clone(&outer_expr),
-    );
-
-    // Push the iterated value and the index for the next time we call
-    // this function.
-    env.push_value(Value::new(Value_::Int(iteree_idx + 1)));
-    env.push_value(iteree_value.clone());
+    // If destructuring the current element fails, put back the index
+    // and the iterated value so this step can be resumed.
+    let saved_values = vec![
+        Value::new(Value_::Int(iteree_idx)),
+        iteree_value.clone(),
+    ];
 
     let mut bindings: Vec<(Symbol, Value)> = vec![];
     let iteree_current_elem = items[iteree_idx as usize].clone();
@@ -1815,7 +1812,7 @@ fn eval_for_in(
             Value_::Tuple { items, .. } => {
                 if items.len() != symbols.len() {
                     return Err((
-                        RestoreValues(vec![iteree_current_elem.clone()]),
+                        RestoreValues(saved_values),
                         EvalError::Exception(ExceptionInfo {
                             position: iteree_pos.clone(),
                             message: ErrorMessage(vec![Text(format!(
@@ -1837,7 +1834,7 @@ fn eval_for_in(
             }
             _ => {
                 return Err((
-                    RestoreValues(vec![iteree_current_elem.clone()]),
+                    RestoreValues(saved_values),
                     EvalError::Exception(ExceptionInfo {
                         position: iteree_pos.clone(),
                         message: format_type_error(
@@ -1852,6 +1849,19 @@ fn eval_for_in(
             }
         },
     }
+
+    // After this iteration's body, a DoneRunBlock step (see the
+    // `ForIn` dispatch) pops the bindings block that `eval_block`
+    // pushes, before the next iteration runs.
+    env.push_expr_to_eval(
+        ExpressionState::PartiallyEvaluated(BlockState::DoneRunBlock),
+        Rc::clone(&outer_expr),
+    );
+
+    // Push the iterated value and the index for the next time we call
+    // this function.
+    env.push_value(Value::new(Value_::Int(iteree_idx + 1)));
+    env.push_value(iteree_value.clone());
 
     let stack_frame = env.current_frame_mut();
     stack_frame.bindings_next_block = bindings;
